@@ -551,6 +551,14 @@ def s7_s8_merge_sets(ctx):
         ents = origin_mentions(o, lambda x: x[0] == "call" and x[1] == "dashmap::DashMap::entry")
         good = bool(ents) and all(access_path(e[2][1]) in ids for e in ents)
         r.add(f, "S7: copied entry counted live on the output's id", good, where(b, bb), origin_str(o))
+        # the accounting entry is looked up per copied entry (after the copy, in the same iteration):
+        # a lookup hoisted out of the loop keeps counting on the first output after a rollover
+        if m.copies and m.copy_loop_next is not None:
+            cbb2 = m.copies[0][0]
+            okc, _, _ = try_edges(b, cbb2)
+            region = reach(b, [e.dst for e in (okc or [])], blocked_edges=lambda e: e.kind == "unwind", blocked_blocks={m.copy_loop_next})
+            inloop = bool(ents) and all(e[3][1] in region for e in ents)
+            r.add(f, "S7: the output's accounting entry is looked up for each copied entry (not hoisted out of the loop)", inloop, where(b, bb), "" if inloop else "stats.entry(output id) is evaluated before the loop: after a rollover the later outputs are never counted")
     # S8
     if m.sel_site is None or m.copy_loop_next is None:
         r.unrec(f, "selection set / copy loop", short_span(b.span), "not found")
